@@ -30,6 +30,10 @@ Definition detach_links (h : heap) (n p : id) : heap :=
 Definition attach_links (h : heap) (n p : id) : heap :=
   set_parent_field (set_children_field h p (children h p ++ [n])) n (Some p).
 
+(** the state after detaching [n] from its parent (if any) *)
+Definition after_detach (h : heap) (n : id) : heap :=
+  match parent h n with Some p => detach_links h n p | None => h end.
+
 (** all-roots universe of [k] nodes; allocation of one more node *)
 Definition init (k : nat) : heap := repeat empty_cell k.
 Definition alloc (h : heap) : heap * id := (h ++ [empty_cell], length h).
